@@ -680,6 +680,24 @@ class ContainerNode(TreeNode, Sized, ABC):
 
             cls.__init__ = wrapped
 
+    @classmethod
+    def without_parenting(cls, *args, **kwargs):
+        """Constructs an instance of this container that does not become the parent of its children.
+
+        This is for building a temporary container around nodes that are already part of another tree (*e.g.*, to
+        print them using the formatter of a different node type). Assigning such nodes to a second parent would
+        otherwise raise a :exc:`ValueError`.
+
+        """
+        node = cls.__new__(cls)
+        # This causes the wrapped __init__ to skip setting the parent of the children:
+        setattr(node, "_container_initializing", True)
+        try:
+            node.__init__(*args, **kwargs)
+        finally:
+            delattr(node, "_container_initializing")
+        return node
+
     def children(self) -> Sequence[TreeNode]:
         """The children of this node.
 
